@@ -66,7 +66,9 @@ Definition scen_cmp (sc : scen) : Z :=
    conservation theorem (no removed runner, no reconciled starting price, positive ladders), bit 2 = side condition of the
    acknowledgement-time theorem C07_run_ack_after_latency (must hold on EVERY scenario), bit 3 = side condition of the names theorem
    C13_order_names_unique_in_every_reachable_state: every (market, name) used once, names below 1000 (must hold on EVERY scenario), bit 4 = the static side conditions
-   of the *_static theorems (configuration, initial state, books incl. bet delays): with bit 3 they make bits 0 and 2 theorems *)
+   of the *_static theorems (configuration, initial state, books incl. bet delays): with bit 3 they make bits 0 and 2 theorems,
+   bit 5 = order sizes strictly positive (extra hypothesis of the C03 whole-run theorems), bit 6 = the conclusion of those theorems evaluated on the
+   final state of this scenario (every status log a lifecycle path ending in the status, no two queued packages for one order): with bits 3, 4, 5 a theorem *)
 Definition scen_hyp (sc : scen) : Z :=
   let scr := script_of (sc_script sc) in
   let g := run_guard_b tb_up (sc_cfg sc) (sc_nstrat sc) scr (sc_events sc) (sim0 (sc_markets sc))
@@ -76,4 +78,10 @@ Definition scen_hyp (sc : scen) : Z :=
            && run_ack_guard_b tb_down (sc_cfg sc) (sc_nstrat sc) scr (sc_events sc) (sim0 (sc_markets sc)) in
   let k := keys_ok_b scr (sc_nstrat sc) (sc_events sc) in
   let st := cfg_ok_b (sc_cfg sc) && initial_b (sim0 (sc_markets sc)) && forallb (event_b2 scr (sc_nstrat sc)) (sc_events sc) in
-  (if g then 1 else 0) + (if d then 2 else 0) + (if a then 4 else 0) + (if k then 8 else 0) + (if st then 16 else 0).
+  let pos := forallb (event_b3 scr (sc_nstrat sc)) (sc_events sc) in
+  let life (tb : tiebreak) :=
+    let sf := fold_left (step tb (sc_cfg sc) (sc_nstrat sc) scr) (sc_events sc) (sim0 (sc_markets sc)) in
+    forallb (fun m => forallb (fun o => lifecycle_path SNone (so_log o) && status_eqb (last (so_log o) SNone) (so_status o)) (mk_orders m)) (s_markets sf)
+    && nodup_keys_b (map (fun p => (pk_market p, pk_order p)) (s_queue sf)) in
+  (if g then 1 else 0) + (if d then 2 else 0) + (if a then 4 else 0) + (if k then 8 else 0) + (if st then 16 else 0)
+  + (if pos then 32 else 0) + (if life tb_up && life tb_down then 64 else 0).
